@@ -16,10 +16,10 @@ import sys
 MIXED = {"block-cross": 50, "block-multi": 10, "block-repeat": 10, "c-exclude": 20, "c-min": 20, "c-pin": 10,
          "c-exactly_k": 10, "c-atmost": 10, "crossed-derived": 20, "has-transition": 20, "has-within": 20,
          "has-window": 10, "weights-crossed": 20, "weights-uncrossed": 20, "rcc-false": 20, "else-level": 10,
-         "window-stride>1": 5, "scenario:min-leftover": 5, "scenario:preamble": 5,
-         "scenario:multi-different-preambles": 5, "scenario:repeat-leftover": 5, "scenario:exclude-uncrossed-derived": 3,
-         "scenario:crossed-within-uncrossed-source": 5, "scenario:weight-uncrossed": 5, "scenario:pin": 5,
-         "scenario:run-length": 5, "scenario:uncrossed-transition": 5}
+         "window-stride>1": 5, "scenario:min-leftover": 3, "scenario:preamble": 3, "round-skeleton": 10,
+         "scenario:multi-different-preambles": 3, "scenario:repeat-leftover": 3, "scenario:exclude-uncrossed-derived": 2,
+         "scenario:crossed-within-uncrossed-source": 3, "scenario:weight-uncrossed": 2, "scenario:pin": 3,
+         "scenario:run-length": 3, "scenario:uncrossed-transition": 3}
 
 FLOORS = {
     "C01": dict(MIXED, **{"UniGen:ok": 50, "UniformGen:ok": 50, "models:complete": 50, "models:capped": 10}),
